@@ -51,6 +51,11 @@ type Monitor struct {
 	Workers int
 	// HangSeconds overrides the per-case watchdog (default 120 quick / 600 thorough).
 	HangSeconds int
+	// WorkerEnv returns extra environment variables for worker processes (dir = work dir).
+	WorkerEnv func(dir string) []string
+	// Prepare runs in the parent after the self-test and before workers start
+	// (e.g. to compute golden results in fresh processes); an error makes the run inconclusive.
+	Prepare func(dir, tier string, seed int64) error
 	// Post runs in the parent after workers finished; it may add counters and violations
 	// (used for race-log scanning and cross-worker comparisons).
 	Post func(p *Parent)
